@@ -103,14 +103,12 @@ Theorem C02_server_finished_verified :
     k_sr k = g_rand g.
 Proof. exact @server_finished_verified. Qed.
 
-(* Epoch-0 ApplicationData before any authentication is handed to the application (shared with C03:
-   the discard rule of a7198e8 starts only once keys exist). *)
-Theorem C02_plain_appdata_before_auth_refuted :
-  exists (g : cfg tm) (d : tm) (i : input tm),
-    g_role g = Client /\ g_expected g = Some (fingerprint sym server_cert) /\
-    let '(c, o) := step sym (fst (start sym g)) i in
-    In (OUp d) o /\ peer_cert c = None /\ skeys c = None.
-Proof. exact plain_appdata_before_auth_refuted. Qed.
+(* Epoch-0 (plaintext) ApplicationData is never handed to the application, in any state -- in
+   particular not before authentication (fixed by 02d1d8d; shared with C03). *)
+Theorem C02_no_plaintext_appdata :
+  forall (T : Type) (C : crypto T) (c : ctx T) (r : record T) (d : T),
+  r_epoch r = 0 -> r_content r = KAppData d -> handle_record C c r = (c, [], RNext).
+Proof. exact @no_plaintext_appdata. Qed.
 
 (* The premises are satisfiable and the client theorem is not vacuous: the free term algebra `sym`
    satisfies eqb-soundness and the ideal-signature premise, and its honest run reaches Connected. *)
